@@ -245,7 +245,7 @@ CasesOf(fam, tier) ==
                            A == [i \in 1..Len(A0) |-> IF tier = "thorough" /\ A0[i].cmds[1].body \in C01_Deep
                                                        THEN [A0[i] EXCEPT !.hi = LenFor({A0[i].sigma[j] : j \in 1..Len(A0[i].sigma)}, "quick")]
                                                        ELSE A0[i]]
-                           Gc == GlobalSeqCases(C01_GlobalCases, tier, Len(A))
+                           Gc == GlobalSeqCases(C01_GlobalCases \cup C01_FreshPredCases, tier, Len(A))
                        IN [i \in 1..Len(A) |-> WithReplace(A[i], 7)] \o Gc \o ClassTableCases(Len(A) + Len(Gc)) \o LargeCases \o ByteCases(tier) \o LargeNullableCases
     [] fam = "C02"  -> BodySeqCases(C02_Bodies, tier)
     [] fam = "C03N" -> BodySeqCases(C03_NamedBodies, tier)
